@@ -23,3 +23,7 @@ Print Assumptions C03_add_zero_l.
 Check C03_add_total : forall a b, canonp (rem a) -> canonp (rem b) ->
   Rabs (theta (geometric_add a b) - (theta a + theta b)) <= R_ eps10 + / 2251799813685248.
 Print Assumptions C03_add_total.
+Check C03_add_assoc : forall a b c, canonp (rem a) -> canonp (rem b) -> canonp (rem c) ->
+  Rabs (theta (geometric_add (geometric_add a b) c) - theta (geometric_add a (geometric_add b c)))
+    <= 4 * (R_ eps10 + / 2251799813685248).
+Print Assumptions C03_add_assoc.
